@@ -27,6 +27,34 @@ class CompilerTheory(Theory):
     COMPS = [('cic', 'Int')]
     NO_TERM_COMPS = True
 
+    def loop_modified_comps(self, ex, body):
+        """components a loop body may change (the others keep their value across the loop: not havocked)"""
+        mods = set()
+        cls = ex.qualname.split('.')[0]
+        for s_ in body:
+            for n in ast.walk(s_):
+                if isinstance(n, ast.Attribute) and isinstance(n.value, ast.Name) and n.value.id == 'self':
+                    if n.attr == 'cut_if_counter' and isinstance(n.ctx, ast.Store):
+                        mods.add('cic')
+                if isinstance(n, ast.Call) and isinstance(n.func, ast.Attribute):
+                    f = n.func
+                    if isinstance(f.value, ast.Name) and f.value.id == 'self':
+                        c = ex.reg.get('%s.%s.%s' % (ex.modname, cls, f.attr))
+                        if c is None:
+                            return None
+                        mods.update(c.modifies)
+                    if isinstance(f.value, ast.Attribute) and f.value.attr == 'head_args_by_pos' and f.attr in ('append', 'pop', 'insert'):
+                        mods.update(['hp', 'hpn', 'hplen'])
+                if isinstance(n, ast.Subscript) and isinstance(n.ctx, ast.Store) and isinstance(n.value, ast.Attribute) \
+                        and n.value.attr == 'head_args_by_pos':
+                    mods.update(['hp', 'hpn'])
+                if isinstance(n, ast.Assign) and any(isinstance(t, ast.Attribute) and t.attr == 'head_args_by_pos' for t in n.targets):
+                    mods.update(['hp', 'hpn', 'hplen'])
+        return mods
+
+    def havoc_sv_self(self, v):
+        return v if v.sort in ('CSelf', 'HPList', 'Ctx') else None
+
     def mk_param(self, ex, st, n, sort, sub):
         if sort == 'CSelf':
             return SV('CSelf', None)
@@ -117,6 +145,8 @@ class CompilerTheory(Theory):
                 return SV('Code', '(capp %s %s)' % (a.e, b.e))
             if a.sort == 'Str' and b.sort == 'StrOfInt' and a.e == smt_str('cutIf'):
                 return SV('Label', b.e)
+            if a.sort == 'Str' and b.sort == 'StrOfInt':
+                return SV('Str', '(str.++ %s (str.from_int %s))' % (a.e, b.e))
         return None
 
     def equal(self, ex, e, op, a, b, st):
